@@ -357,6 +357,21 @@ def r7_amount(ctx: Ctx) -> None:
     fl_calls = [c for c in fl.calls('float')]
     ctx.check(len(fl_calls) == 1 and not cfg.guard_literals(fl.stmt_of(fl_calls[0])), 'C05.R7', pa, 'float', 'the normalised text is converted with float() on every path',
               'conversion to float is conditional or repeated')
+    # currency symbols are dropped wherever they stand (`-$25.00`, `12,50 €`): the deleting pattern is a bare character class, no anchor, no context
+    import re._parser as _sre
+    import re._constants as _sc
+    dels = [c for c in fl.calls('sub') if dotted(c.func) == 're.sub' and len(c.args) >= 3 and isinstance(c.args[0], ast.Constant) and isinstance(c.args[0].value, str)
+            and isinstance(c.args[1], ast.Constant) and c.args[1].value == '' and any(ch in c.args[0].value for ch in '$€£¥')]
+    if not dels:
+        ctx.unknown('C05.R7', pa, 'no deletion of currency symbols (re.sub(<class>, \'\', …)) found in parse_amount')
+    for c in dels:
+        try:
+            items = list(_sre.parse(c.args[0].value))
+        except Exception:
+            items = None
+        ok = items is not None and len(items) == 1 and items[0][0] in (_sc.IN, _sc.LITERAL) and not cfg.guard_literals(fl.stmt_of(c))
+        ctx.check(ok, 'C05.R7', pa, 'currency-symbols', 'currency symbols are removed wherever they stand', f're.sub({c.args[0].value!r}, \'\', …) removes a currency symbol only in one position '
+                  f'(or only sometimes): `-$25.00` / `12,50 €` keep their symbol, float() fails and the row is dropped', c)
 
 
 def r8_row_independence(ctx: Ctx, f, fl, loop, row) -> None:
